@@ -39,14 +39,32 @@ def _masked(expr, defs_of, depth=0):
     return False
 
 
-SCALAR_WRITE_PATHS = [
-    ("type_base", "set_val"), ("type_base", "val@setter"), ("list_t", "append"), ("list_t", "__setitem__"),
-]
+# part-select write: its bit arithmetic is value-level (DESIGN section 5, C18 "not decided"); every other facade function of
+# type_base / list_t that writes a model value is discovered from the code
+FT1_NOT_DECIDED = {("type_base", "__setitem__")}
+
+
+def scalar_write_paths(prog):
+    out = []
+    for cn in ("type_base", "list_t"):
+        c = prog.cls(cn, "vsc.types")
+        for mn, f in sorted(c.methods.items()):
+            if (cn, mn) in FT1_NOT_DECIDED:
+                continue
+            for n in walk_local(f.node):
+                if isinstance(n, ast.Call) and call_name(n) == "set_val" and n.args:
+                    rv = recv_text(n) or ""
+                    if rv != "self" and not rv.startswith("super()"):
+                        out.append((cn, mn))
+                        break
+    return out
 
 
 @rule("FT1", ["C18"], "every facade write path to a scalar model value passes a width-masked value on every branch", engine="DF", floor=4)
 def ft1(prog, rr):
-    for cn, mn in SCALAR_WRITE_PATHS:
+    paths = scalar_write_paths(prog)
+    rr.require(len(paths) >= 4, "facade write paths not found (%s)" % paths)
+    for cn, mn in paths:
         c = prog.cls(cn, "vsc.types")
         f = c.methods.get(mn)
         rr.require(f is not None, "%s.%s not found" % (cn, mn))
